@@ -1,5 +1,6 @@
 import Driver.C11
 import Driver.C16
+import Driver.C01
 import Driver.C08
 import Driver.C18
 import Driver.C09
@@ -34,6 +35,8 @@ def dispatch (prop : String) (c obs : String) : String × String × Bool :=
   | "C10" => C09.run10 c obs
   | "C18" => C18.run c obs
   | "C08" => C08.run c obs
+  | "C01" => C01.run c obs
+  | "C04" => C01.run c obs
   | "C14" => C14.runSched c obs
   | "C14live" => C14.runLive c obs
   | "C16" => C16.runDiff c obs
